@@ -8,6 +8,7 @@ from ..attach import snap_teams
 from ..util import KIND, MODEL_NAMES
 
 PROPERTY = "C06"
+PYTEST_PREFIX = "C06/"
 LEVEL = "exploration"
 RULE = ("(i) single games over the full configuration box (per-call and model-level tau incl. 0 and limit_sigma, kappa "
         "up to 1e-2 with beta scaled down so the TM draw margin t=kappa/c is large, gamma>=0 callbacks incl. 0 and 3, "
